@@ -745,3 +745,43 @@ Proof.
   cbn [bind]. destruct (map_res _ (zseq sz)); reflexivity.
 Qed.
 (* END *)
+
+(* ---------- eq.rs: PartialEq ---------- *)
+(* BEGIN Matrix_eq *)
+Lemma gen_eq_all {A} c (eqT : A -> A -> bool) s1 s2 (d2 : list A) : forall (l : list (Z * A)),
+  all_res l (fun ix_el => let '(index, left_) := ix_el in
+      let* r1 := G_AxisIndex_from_flattened c index s1 in
+      let* r2 := G_AxisIndex_swap c r1 in
+      let* r3 := G_AxisIndex_to_flattened c r2 s2 in
+      let* g := get_unchecked d2 r3 in
+      Val (eqT left_ g))
+  = (fix all (l : list (Z * A)) : res bool :=
+       match l with
+       | [] => Val true
+       | (index, lft) :: t =>
+         let* j := remap c index s1 s2 in
+         let* rgt := get_unchecked d2 j in
+         if eqT lft rgt then all t else Val false
+       end) l.
+Proof.
+  induction l as [|[index lft] t IH]; cbn [all_res]; [reflexivity|].
+  rewrite gen_AxisIndex_from_flattened. unfold remap at 1.
+  destruct (AxisIndex_from_flattened index s1) as [i|w|w]; cbn [bind]; try reflexivity.
+  rewrite gen_AxisIndex_swap. cbn [bind]. rewrite gen_AxisIndex_to_flattened.
+  destruct (AxisIndex_to_flattened c (AxisIndex_swap i) s2) as [j|w|w]; cbn [bind]; try reflexivity.
+  destruct (get_unchecked d2 j) as [g|w|w]; cbn [bind]; try reflexivity.
+  destruct (eqT lft g); [exact IH|reflexivity].
+Qed.
+
+Lemma gen_Matrix_eq {A} c (eqT : A -> A -> bool) (a b : matrix A) : G_Matrix_eq c eqT a b = matrix_eqb c eqT a b.
+Proof.
+  unfold G_Matrix_eq, matrix_eqb, GOrder_eqb, GAxisShape_eqb, vec_eqb, mmajor, mminor.
+  destruct (order_eqb (m_order a) (m_order b)); cbn [bind].
+  - destruct (AxisShape_eqb (m_shape a) (m_shape b)); reflexivity.
+  - cbn [G_Matrix_major G_Matrix_minor G_AxisShape_major G_AxisShape_minor bind mview f_Matrix_shape]. unfold f_AxisShape_major, f_AxisShape_minor.
+    destruct (major (m_shape a) =? minor (m_shape b)); cbn [bind andb]; [|reflexivity].
+    destruct (minor (m_shape a) =? major (m_shape b)); cbn [bind]; [|reflexivity].
+    cbv zeta. rewrite (gen_eq_all c eqT (m_shape a) (m_shape b) (m_data b)). unfold zenumerate, size.
+    match goal with |- _ = ?rhs => destruct rhs end; reflexivity.
+Qed.
+(* END *)
